@@ -6,7 +6,11 @@ options with aliases, arguments, command names) drawn from a small colliding nam
 0-2 levels of base format, run on the real ArgsFormatBuilder / ArgsFormat; after every operation the
 exception class and the answers to ALL public queries of the builder and of `builder.format` are
 compared with the Lean model (`Clikit.ArgsFmt`).  Also `ArgsFormat(elements, base)` directly and
-`CommandConfig.build_args_format` stacked on parents.
+`CommandConfig.build_args_format` stacked on parents.  The element objects are instances of the public
+element classes or of user-defined subclasses of them (trivial, two levels deep with an own constructor
+signature, with a mixin): the model does not know classes, only as which public class the `isinstance`
+chain of the element-list constructor adds an object (`dispatch`, entry c06.dispatch, compared with the
+listing `ArgsFormat([object])` puts the object in).
 
 Oracle: the property statement evaluated on the implementation alone (invariant after each
 operation, atomic rejection through a before/after snapshot of all builder queries, builder ==
@@ -26,7 +30,13 @@ LEVEL_TEXT = ("Proved in Lean for the model, for every history of builder calls 
               "multi-valued argument and it is last, no required argument after an optional one) is preserved by every "
               "call, a rejected single addition leaves the builder unchanged, the built format answers every public "
               "query exactly as the builder does, every predicate/lookup equals its declarative meaning over the listed "
-              "elements, and ArgsFormat(elements, base) is the fold of the single additions.  The hypotheses of these "
+              "elements, and ArgsFormat(elements, base) is the fold of the single additions - also for element objects of "
+              "arbitrary user-defined subclasses of the public element classes: the isinstance chain of the element-list "
+              "constructor is a model function of the public classes among the bases of the object's class (dispatch), an "
+              "object is skipped iff it derives from none (dispatch_none_iff), the first class in the order of the tests "
+              "decides (dispatch_mem, dispatch_first), an instance of any subclass of exactly one public class is added as "
+              "that class (dispatch_subclass), hence the constructor on such objects is the fold of the additions of what "
+              "they read as (ctor_objects_same_rules).  The hypotheses of these "
               "theorems are discharged: the well-formedness of the elements is decided by the model on the names read "
               "from the real element objects of every case (entry c06.wf, theorem wf_decides) and compared with true; "
               "the well-formedness of the base is proved for every format that can exist (built_inv: the closure of None "
@@ -58,7 +68,11 @@ LEVEL_NOTE = ("Trusted: Lean kernel + propext/Quot.sound/Classical.choice; the h
               "correspondence run only (modelled, not verified).  Element constructors (name validation, flag "
               "normal forms) are C07's subject: the theorems need what they guarantee (long names/aliases have at "
               "least two characters, short names/aliases exactly one) - no longer assumed: decided by Op.wfB / Elem.wfB "
-              "on every real element of every case (c06.wf) and compared with true.  The bridge theorems are about "
+              "on every real element of every case (c06.wf) and compared with true.  The concrete class of an element "
+              "object is not part of the builder model: an object enters it as the element its public class reads "
+              "(names, modes); which public class that is, is the model's dispatch on the bases read from the real object's "
+              "class, compared on every case with the listing ArgsFormat([object]) puts the object in (c06.dispatch); "
+              "builder calls (add_option(x) ...) take the kind from the method called.  The bridge theorems are about "
               "flattenRec of the MODEL's format; that the real parse() reads the same three listings is the "
               "correspondence of C01/C02 (their flatten) plus the c06.flatten comparison here, restricted to command "
               "names/aliases, argument name/required/multi and option long/short names; option value modes, types, "
@@ -84,11 +98,20 @@ REQUIRED_THEOREMS = ["Clikit.Props.C06.step_atomic_inv", "Clikit.Props.C06.reach
                      "Clikit.Props.C06.built_command_names_realigned",
                      "Clikit.Props.C06.built_fault_surplus_positional", "Clikit.Props.C06.built_fault_value_for_flag",
                      "Clikit.Props.C06.built_fault_required_value_missing",
-                     "Clikit.Props.C06.built_no_foreign_exception"]
+                     "Clikit.Props.C06.built_no_foreign_exception",
+                     "Clikit.Props.C06.dispatch_none_iff", "Clikit.Props.C06.dispatch_mem",
+                     "Clikit.Props.C06.dispatch_first", "Clikit.Props.C06.dispatch_subclass",
+                     "Clikit.Props.C06.ctor_objects_same_rules"]
 RULE = ("cases = (0-2 base levels built with ArgsFormat(elements, base)) x (sequence of builder calls); quick: every "
         "sequence of length <= 3 over a reduced pool of 14 calls on 4 base configurations, then random sequences of "
         "length 4-7 over the full pool (20 elements with colliding long/short names and aliases, set_*/add_* with "
         "0-3 elements); plus ArgsFormat(elements, base) cases and CommandConfig.build_args_format stacks; "
+        "the concrete class of every element object is a dimension of the case (`cls`): the public class, a trivial "
+        "user subclass, a subclass of a subclass with its own constructor signature, a mixin subclass - quick: every "
+        "ArgsFormat(elements, base) with <= 2 elements of a reduced pool of 11 x {public class, trivial subclass} per "
+        "object on 3 base configurations (thorough: all four kinds of class, and <= 3 elements), and in about 45 % of the "
+        "random run / ctor cases half of the objects (base levels, constructor lists, builder calls) are of a user "
+        "subclass; every object is also given alone to ArgsFormat([x]); "
         "a case is non-trivial when a call was rejected or a base level exists; distinct = distinct case")
 TRUSTED_BASE = [
     "Lean 4.33 kernel; axioms propext, Classical.choice, Quot.sound only (audited per theorem on every run)",
@@ -98,6 +121,9 @@ TRUSTED_BASE = [
     "harness/props/c06.py: generators, the probe list (every public has_*/get_* with include_base True/False over all "
     "names of the pool and positions -2..len+1), canonicalisation of elements to tags",
     "element constructors (Option, CommandOption, Argument, CommandName) are C07's subject",
+    "the user-defined subclasses the harness makes element objects of (`_user_classes`: trivial, two levels deep with "
+    "an own constructor signature and attribute, mixin first) do not override anything the public classes define; "
+    "the public classes among the bases of an object's class are read from type(o).__mro__",
 ]
 ASSUMPTIONS = [
     "elements are what the constructors produce: long names and long aliases have >= 2 characters, short names and "
@@ -106,6 +132,8 @@ ASSUMPTIONS = [
     "a base format is itself a built format (ArgsFormat(elements, base) or builder.format - the only constructors); "
     "for such formats the hypothesis InvBase is a theorem (built_inv over the inductive closure `Built`; that ArgsFormat "
     "has no other constructor and no mutator is read off the class, not proved)",
+    "an instance of a subclass of a public element class is an element of that class (isinstance): the statement "
+    "does not mention classes, the oracle demands the same of such objects as of plain ones",
     "a format is only observed through its public queries; the list returned by get_command_names(False) is "
     "shared between builder and format (aliasing is outside the functional model)",
 ]
@@ -225,11 +253,84 @@ def _run_case(bases, ops, snap_all):
     return {"kind": "run", "bases": bases, "ops": ops, "snap_all": snap_all}
 
 
+# ---- the concrete classes of the element objects.  An element of the pool says which PUBLIC element class the object
+# is an instance of ("k") and what its names / modes are; `case["cls"]` ({str(tag): kind}) says of which concrete class
+# the object of that tag is made: the public class itself (no entry), or a user-defined subclass of it:
+#   "sub"   - a trivial subclass (`class X(Option): pass`)
+#   "deep"  - a subclass of a subclass whose constructor has its OWN signature and sets an attribute of its own
+#   "mixin" - a class inheriting from a foreign mixin FIRST and from the public class second
+# The property does not mention classes: an instance of a subclass of Option IS an option (isinstance), so the model
+# requests do not carry `cls` at all and every clause of the oracle applies unchanged.
+CLS_KINDS = ["sub", "deep", "mixin"]
+
+
+def _case_tags(case):
+    """tags of the element objects of a run / ctor case, in order of first use"""
+    out = []
+    for e in _case_elements(case):
+        if "tag" in e and e["tag"] not in out:
+            out.append(e["tag"])
+    return out
+
+
+def _with_cls(case, assign):
+    """the case with the concrete classes `assign` ({tag: kind or None})"""
+    cls = dict((str(t), k) for t, k in assign.items() if k)
+    c = dict(case)
+    c.pop("cls", None)
+    if cls:
+        c["cls"] = cls
+    return c
+
+
+def _rand_cls(rng, case, p_case=0.45):
+    """user subclasses for about half of the element objects of about half of the cases"""
+    if case["kind"] == "config" or rng.random() >= p_case:
+        return case
+    return _with_cls(case, dict((t, rng.choice(CLS_KINDS) if rng.random() < 0.5 else None) for t in _case_tags(case)))
+
+
+CTOR_SMALL = (1, 2, 3, 11, 12, 13, 21, 22, 24, 26, 31)
+
+
+def _ctor_scope(maxlen, kinds):
+    """ArgsFormat(elements, base): every element list up to `maxlen` over the reduced pool x every assignment of the
+    concrete classes `kinds` (None = the public class) to the objects used, on no base, a plain base level and the same
+    base level made of subclass instances"""
+    T = BY_TAG
+    base_lvl = [T[1], T[21]]
+    for n in range(0, maxlen + 1):
+        for seq in itertools.product(CTOR_SMALL, repeat=n):
+            tags = []
+            for t in seq:
+                if t not in tags:
+                    tags.append(t)
+            for ks in itertools.product(kinds, repeat=len(tags)):
+                assign = dict(zip(tags, ks))
+                if not any(ks):
+                    continue        # all-plain lists are in the random part and the seed cases
+                els = [T[t] for t in seq]
+                yield _with_cls({"kind": "ctor", "bases": [], "elements": els}, assign)
+                yield _with_cls({"kind": "ctor", "bases": [base_lvl], "elements": els}, assign)
+                both = dict(assign)
+                both.update({1: "sub", 21: "sub"})
+                yield _with_cls({"kind": "ctor", "bases": [base_lvl], "elements": els}, both)
+
+
 def generate(tier, rng):
     maxlen = 3 if tier == "quick" else 4
     # a few hand-picked cases first (the repaired defects D4, D5, D6, D25 and the mutants of DESIGN 6/C06)
     for c in _seed_cases():
         yield c
+    # the element-list constructor on objects of user subclasses of the public element classes
+    if tier == "quick":
+        for c in _ctor_scope(2, [None, "sub"]):
+            yield c
+    else:
+        for c in _ctor_scope(2, [None] + CLS_KINDS):
+            yield c
+        for c in _ctor_scope(3, [None, "sub"]):
+            yield c
     for n in range(0, maxlen + 1):
         for bases in SMALL_BASES:
             for seq in itertools.product(SMALL_OPS, repeat=n):
@@ -238,12 +339,12 @@ def generate(tier, rng):
     for i in range(n_random):
         r = rng.random()
         if r < 0.70:
-            yield _run_case(_rand_bases(rng), [_rand_op(rng) for _ in range(rng.randint(4, 7))], True)
+            yield _rand_cls(rng, _run_case(_rand_bases(rng), [_rand_op(rng) for _ in range(rng.randint(4, 7))], True))
         elif r < 0.85:
             es = [rng.choice(POOL) for _ in range(rng.randint(0, 6))]
             if rng.random() < 0.1:
                 es.insert(rng.randint(0, len(es)), {"k": "foreign"})
-            yield {"kind": "ctor", "bases": _rand_bases(rng), "elements": es}
+            yield _rand_cls(rng, {"kind": "ctor", "bases": _rand_bases(rng), "elements": es})
         else:
             yield _rand_config(rng)
 
@@ -268,6 +369,14 @@ def _seed_cases():
     yield {"kind": "config", "levels": [
         {"name": _n(40, "lvl0", ["l0"]), "anonymous": False, "adds": [T[1], T[21]]},
         {"name": _n(41, "lvl1", []), "anonymous": False, "adds": [T[2], T[5], T[22]]}]}
+    # objects of user subclasses of the public element classes: in the element-list constructor, in a base level and in
+    # builder calls (one of each kind of element, colliding and non-colliding)
+    yield _with_cls({"kind": "ctor", "bases": [], "elements": [T[31], T[12], T[1], T[26], T[24]]},
+                    {31: "sub", 12: "deep", 1: "mixin", 26: "sub", 24: "deep"})
+    yield _with_cls({"kind": "ctor", "bases": [[T[6], T[28]]], "elements": [T[1], T[2], T[21]]},
+                    {6: "deep", 28: "mixin", 1: "sub", 21: "deep"})
+    yield _with_cls(_run_case([[T[12], T[21]]], [_single(T[4]), _single(T[6]), _single(T[25]), _single(T[32])], True),
+                    {12: "sub", 21: "mixin", 4: "deep", 6: "sub", 25: "deep", 32: "mixin"})
 
 
 def exhaustive(tier):
@@ -279,15 +388,109 @@ class _Foreign(object):
     pass
 
 
-class _Objs(object):
-    """one Python object per tag and case (re-adding the same element re-adds the same object)"""
+_USER_CLASSES = {}
 
-    def __init__(self):
+
+def _user_classes():
+    """user-defined subclasses of the four public element classes: {kind: {"opt"|"copt"|"arg"|"name": factory}};
+    every factory takes the arguments of the public constructor (the "deep" classes translate them to their own
+    signature) so that an object of any of them carries the same names / modes as the plain object would"""
+    if _USER_CLASSES:
+        return _USER_CLASSES
+    from clikit.api.args.format import Argument, CommandName, CommandOption, Option
+
+    # -- "sub": trivial subclasses
+    class SubOption(Option):
+        pass
+
+    class SubCommandOption(CommandOption):
+        pass
+
+    class SubArgument(Argument):
+        pass
+
+    class SubCommandName(CommandName):
+        pass
+
+    # -- "deep": own constructor signature, own attribute, one more level of inheritance
+    class Flag(Option):
+        """an option that never takes a value"""
+
+        def __init__(self, long_name, short_name=None, description=None):
+            super(Flag, self).__init__(long_name, short_name, Option.NO_VALUE, description)
+            self.origin = "user"
+
+    class Flag2(Flag):
+        pass
+
+    class Switch(CommandOption):
+        def __init__(self, long_name, short_name=None, description=None, *aliases):
+            super(Switch, self).__init__(long_name, short_name, list(aliases), 0, description)
+            self.origin = "user"
+
+    class Switch2(Switch):
+        pass
+
+    class Operand(Argument):
+        def __init__(self, name, description=None, required=False, multi=False):
+            flags = (Argument.REQUIRED if required else Argument.OPTIONAL) | (Argument.MULTI_VALUED if multi else 0)
+            super(Operand, self).__init__(name, flags, description)
+            self.origin = "user"
+
+    class Operand2(Operand):
+        pass
+
+    class Verb(CommandName):
+        def __init__(self, name, *aliases):
+            super(Verb, self).__init__(name, list(aliases))
+            self.origin = "user"
+
+    class Verb2(Verb):
+        pass
+
+    # -- "mixin": a foreign class first in the bases
+    class Described(object):
+        def describe(self):
+            return type(self).__name__
+
+    class MixOption(Described, Option):
+        pass
+
+    class MixCommandOption(Described, CommandOption):
+        pass
+
+    class MixArgument(Described, Argument):
+        pass
+
+    class MixCommandName(Described, CommandName):
+        pass
+
+    def arg_flags(flags):
+        return bool(flags & Argument.REQUIRED), bool(flags & Argument.MULTI_VALUED)
+
+    _USER_CLASSES.update({
+        None: {"opt": Option, "copt": CommandOption, "arg": Argument, "name": CommandName},
+        "sub": {"opt": SubOption, "copt": SubCommandOption, "arg": SubArgument, "name": SubCommandName},
+        "deep": {"opt": lambda long, short, flags, desc: Flag2(long, short, desc),
+                 "copt": lambda long, short, aliases, flags, desc: Switch2(long, short, desc, *aliases),
+                 "arg": lambda name, flags, desc: Operand2(name, desc, *arg_flags(flags)),
+                 "name": lambda name, aliases: Verb2(name, *aliases)},
+        "mixin": {"opt": MixOption, "copt": MixCommandOption, "arg": MixArgument, "name": MixCommandName},
+    })
+    return _USER_CLASSES
+
+
+class _Objs(object):
+    """one Python object per tag and case (re-adding the same element re-adds the same object); `cls` = the concrete
+    class of the object of a tag ({str(tag): kind}, see CLS_KINDS; no entry = the public class itself)"""
+
+    def __init__(self, cls=None):
         self.by_tag = {}
         self.name_tag = {}
+        self.cls = cls or {}
 
     def get(self, e):
-        from clikit.api.args.format import Argument, CommandName, CommandOption, Option
+        from clikit.api.args.format import Argument, CommandName, CommandOption, Option  # noqa: F401
         if e["k"] == "foreign":
             return _Foreign()
         t = e["tag"]
@@ -295,6 +498,8 @@ class _Objs(object):
             return self.by_tag[t]
         k = e["k"]
         desc = "t%d" % t
+        made = _user_classes()[self.cls.get(str(t))]
+        Option, CommandOption, Argument_, CommandName = made["opt"], made["copt"], made["arg"], made["name"]
         if k == "opt":
             o = Option(e["long"], e["short"], 0, desc)
             assert (o.long_name, o.short_name) == (e["long"], e["short"])
@@ -306,7 +511,7 @@ class _Objs(object):
             assert all(len(a) >= 2 for a in o.long_aliases) and all(len(a) == 1 for a in o.short_aliases)
         elif k == "arg":
             flags = (Argument.REQUIRED if e["req"] else Argument.OPTIONAL) | (Argument.MULTI_VALUED if e["multi"] else 0)
-            o = Argument(e["name"], flags, desc)
+            o = Argument_(e["name"], flags, desc)
             assert (o.is_required(), o.is_optional(), o.is_multi_valued()) == (e["req"], e["opt"], e["multi"])
         else:
             o = CommandName(e["name"], list(e["aliases"]))
@@ -405,6 +610,41 @@ def _flat_of_builder(builder):
     return _flat(r[1]) if r[0] == "ok" else {"err": r[1]}
 
 
+def _case_objects(case):
+    """the distinct element objects of a run / ctor case (pool elements by tag, every foreign object on its own)"""
+    out, seen = [], set()
+    for e in _case_elements(case):
+        if e["k"] == "foreign":
+            out.append(e)
+        elif e["tag"] not in seen:
+            seen.add(e["tag"])
+            out.append(e)
+    return out
+
+
+def _landing(o):
+    """as what `ArgsFormat([o])` added the object: the listing of the constructed format that contains it"""
+    from clikit.api.args.format import ArgsFormat
+    r = _call(ArgsFormat, [o])
+    if r[0] == "err":
+        return r[1]
+    f = r[1]
+    for kind, listing in (("name", lambda: f.get_command_names(False)), ("copt", lambda: f.get_command_options(False)),
+                          ("opt", lambda: f.get_options(False).values()), ("arg", lambda: f.get_arguments(False).values())):
+        rr = _call(listing)
+        if rr[0] == "err":
+            return rr[1]
+        if any(x is o for x in rr[1]):
+            return kind
+    return "foreign"
+
+
+def _mro_names(o):
+    """the public element classes among the bases of the object's class (what isinstance consults), MRO order"""
+    from clikit.api.args.format import Argument, CommandName, CommandOption, Option
+    return [c.__name__ for c in type(o).__mro__ if any(c is p for p in (CommandName, CommandOption, Option, Argument))]
+
+
 def _build_bases(bases, objs, flats=None):
     from clikit.api.args.format import ArgsFormat
     base = None
@@ -429,15 +669,17 @@ def _apply(builder, op, objs):
 
 def run_impl(case):
     from clikit.api.args.format import ArgsFormat, ArgsFormatBuilder
-    objs = _Objs()
+    objs = _Objs(case.get("cls"))
     kind = case["kind"]
     if kind == "config":
         return _run_config(case, objs)
+    # every element object on its own: as which public class the element-list constructor adds it
+    landing = [_landing(objs.get(e)) for e in _case_objects(case)]
     flats = []
     base, st, snaps = _build_bases(case["bases"], objs, flats)
     if st != "ok":
-        return {"bases": st, "flat": {"bases": flats}}
-    obs = {"bases": "ok", "base_snaps": snaps, "flat": {"bases": flats}}
+        return {"bases": st, "flat": {"bases": flats}, "dispatch": landing}
+    obs = {"bases": "ok", "base_snaps": snaps, "flat": {"bases": flats}, "dispatch": landing}
     if kind == "run":
         builder = ArgsFormatBuilder(base)
         obs["init"] = _both(builder, objs)
@@ -541,10 +783,10 @@ def _case_elements(case):
     return es
 
 
-def _real_elements(case):
+def _real_elements(case, objs=None):
     """the options / command options of the case as the REAL constructors made them: the names are read from the
     objects (Option(long, short, 0, description) is also the call Config.add_option makes), one entry per element"""
-    objs = _Objs()
+    objs = objs or _Objs(case.get("cls"))
     out, seen = [], set()
     for e in _case_elements(case):
         if e["k"] not in ("opt", "copt") or e["tag"] in seen:
@@ -561,31 +803,35 @@ def _real_elements(case):
 def model_requests(case):
     common = {"names": PROBE_NAMES, "idx": PROBE_IDX}
     # the hypotheses `wf` of the theorems (Props.C06.wf_decides), decided by the model on the real element objects
-    wf = {"m": "c06.wf", "elems": _real_elements(case)}
+    objs = _Objs(case.get("cls"))
+    wf = {"m": "c06.wf", "elems": _real_elements(case, objs)}
     # the flattened view of the model's formats of the case (Model/Flatten.lean `flattenRec`, the subject of the
     # bridge theorems), compared with `parser_common.flatten` of the REAL formats restricted to the same attributes
     if case["kind"] == "config":
         levels = [{"name": lv["name"], "anonymous": lv["anonymous"], "adds": [_strip(e) for e in lv["adds"]]}
                   for lv in case["levels"]]
         return [dict(common, m="c06.config", levels=levels), wf,
-                {"m": "c06.flatten", "kind": "config", "levels": levels}]
+                {"m": "c06.flatten", "kind": "config", "levels": levels}, {"m": "c06.dispatch", "mros": []}]
     bases = [[_strip(e) for e in lvl] for lvl in case["bases"]]
+    # as which public class the model's `dispatch` (the isinstance chain of the element-list constructor) adds each
+    # element object of the case, from the public classes among the bases of the REAL object's class
+    disp = {"m": "c06.dispatch", "mros": [_mro_names(objs.get(e)) for e in _case_objects(case)]}
     if case["kind"] == "run":
         ops = [_strip_op(o) for o in case["ops"]]
         return [dict(common, m="c06.run", bases=bases, ops=ops, snap_all=bool(case["snap_all"])), wf,
-                {"m": "c06.flatten", "kind": "run", "bases": bases, "ops": ops}]
+                {"m": "c06.flatten", "kind": "run", "bases": bases, "ops": ops}, disp]
     elements = [_strip(e) for e in case["elements"]]
     return [dict(common, m="c06.ctor", bases=bases, elements=elements), wf,
-            {"m": "c06.flatten", "kind": "ctor", "bases": bases, "elements": elements}]
+            {"m": "c06.flatten", "kind": "ctor", "bases": bases, "elements": elements}, disp]
 
 
 def model_obs(case, answers):
-    return dict(answers[0], wf=answers[1]["wf"], flat=answers[2])
+    return dict(answers[0], wf=answers[1]["wf"], flat=answers[2], dispatch=answers[3])
 
 
 def impl_view(case, obs):
     # every element the constructors accept is well formed (C07): the model's decision must be `true`
-    return dict(_impl_view(case, obs), wf=True, flat=obs.get("flat"))
+    return dict(_impl_view(case, obs), wf=True, flat=obs.get("flat"), dispatch=obs.get("dispatch", []))
 
 
 def _impl_view(case, obs):
@@ -740,6 +986,22 @@ def _check_state(snap, base_snap, extra, where):
     return None
 
 
+def _check_lists(snap, elements, where):
+    """a format constructed from a list of elements answers as the LISTED elements imply: its own listings are the
+    listed options / command options / arguments / command names (objects of any other class are ignored)"""
+    own = _decode(snap)[False]
+    given = dict((k, [e["tag"] for e in elements if e["k"] == k]) for k in ("opt", "copt", "arg", "name"))
+    if sorted(t for _, t in own["opts"]) != sorted(given["opt"]):
+        return "%s: lists the options %s, the elements given are %s" % (where, [t for _, t in own["opts"]], given["opt"])
+    if sorted(set(own["copts"])) != sorted(set(given["copt"])):
+        return "%s: lists the command options %s, the elements given are %s" % (where, own["copts"], given["copt"])
+    if [t for _, t in own["args"]] != given["arg"]:
+        return "%s: lists the arguments %s, the elements given are %s" % (where, [t for _, t in own["args"]], given["arg"])
+    if own["names"] != given["name"]:
+        return "%s: lists the command names %s, the elements given are %s" % (where, own["names"], given["name"])
+    return None
+
+
 def _extra(case):
     ex = {}
     if case["kind"] == "config":
@@ -748,7 +1010,7 @@ def _extra(case):
     return ex
 
 
-def oracle(case, obs):
+def _oracle_statement(case, obs):
     ex = _extra(case)
     if case["kind"] == "config":
         base_snap = None
@@ -771,7 +1033,8 @@ def oracle(case, obs):
         return None
     base_snap = None
     for k, bs in enumerate(obs["base_snaps"]):
-        v = _check_state(bs, base_snap, ex, "base format %d" % k)
+        v = _check_state(bs, base_snap, ex, "base format %d" % k) or \
+            _check_lists(bs, case["bases"][k], "base format %d = ArgsFormat(elements, base)" % k)
         if v:
             return v
         base_snap = bs
@@ -781,7 +1044,8 @@ def oracle(case, obs):
         if obs["ctor"] == "ok":
             if obs["f"] != obs["seq_f"]:
                 return "ArgsFormat(elements, base) answers differently from the format built by adding the elements"
-            return _check_state(obs["f"], base_snap, ex, "ArgsFormat(elements, base)")
+            return _check_state(obs["f"], base_snap, ex, "ArgsFormat(elements, base)") or \
+                _check_lists(obs["f"], case["elements"], "ArgsFormat(elements, base)")
         if obs["ctor"] not in ("CannotAddOptionException", "CannotAddArgumentException"):
             return "ArgsFormat(elements, base) raised %s" % obs["ctor"]
         return None
@@ -801,6 +1065,20 @@ def oracle(case, obs):
             diff = [k for k, (x, y) in enumerate(zip(s["b"], s["f"])) if x != y] if isinstance(s["f"], list) else []
             return "%s: builder and built format answer differently (%s)" % (where, _describe(diff[:3], s))
         prev = s
+    return None
+
+
+def oracle(case, obs):
+    v = _oracle_statement(case, obs)
+    if v or case["kind"] == "config":
+        return v
+    # an element is what the public class it is an instance of says, whatever its concrete class
+    for e, got in zip(_case_objects(case), obs["dispatch"]):
+        if got != e["k"]:
+            return "ArgsFormat([x]) for x = element %s, an instance of %s of the public %s class, lists it as: %s" % (
+                e.get("tag", "-"), {None: "the class itself", "sub": "a subclass", "deep": "a subclass of a subclass",
+                                    "mixin": "a mixin subclass"}[(case.get("cls") or {}).get(str(e.get("tag")))],
+                e["k"], got)
     return None
 
 
@@ -846,10 +1124,12 @@ def nontrivial_key(case, obs):
 
 
 def bucket(case, obs):
+    sub = ":subclassed" if case.get("cls") else ""
     if case["kind"] == "run":
-        return "run:bases=%d:len=%d:rejected=%d" % (len(case["bases"]), len(case["ops"]), min(_rejections(case, obs), 3))
+        return "run:bases=%d:len=%d:rejected=%d%s" % (len(case["bases"]), len(case["ops"]),
+                                                      min(_rejections(case, obs), 3), sub)
     if case["kind"] == "ctor":
-        return "ctor:bases=%d:%s" % (len(case["bases"]), "ok" if obs.get("ctor") == "ok" else "rejected")
+        return "ctor:bases=%d:%s%s" % (len(case["bases"]), "ok" if obs.get("ctor") == "ok" else "rejected", sub)
     return "config:levels=%d:rejected=%d" % (len(case["levels"]), min(_rejections(case, obs), 3))
 
 
@@ -864,6 +1144,14 @@ def shrink(case):
                 yield dict(case, levels=lv[:i] + [dict(lv[i], adds=lv[i]["adds"][:j] + lv[i]["adds"][j + 1:])] + lv[i + 1:])
         return
     bases = case["bases"]
+    cls = case.get("cls") or {}
+    if cls:
+        yield _with_cls(case, {})
+        for t in sorted(cls):
+            yield _with_cls(case, dict((u, k) for u, k in cls.items() if u != t))
+        for t in sorted(cls):
+            if cls[t] != "sub":
+                yield _with_cls(case, dict(cls, **{t: "sub"}))
     for i in range(len(bases)):
         yield dict(case, bases=bases[:i] + bases[i + 1:])
     for i in range(len(bases)):
@@ -891,6 +1179,9 @@ def neighbours(case):
             for e in OPTS + ARGS:
                 yield dict(case, levels=case["levels"][:i] + [dict(lv, adds=lv["adds"] + [e])] + case["levels"][i + 1:])
         return
+    cls = case.get("cls") or {}
+    for t in _case_tags(case):          # the same case with one more / one fewer object of a user subclass
+        yield _with_cls(case, dict(cls, **{str(t): None if cls.get(str(t)) else "sub"}))
     if case["kind"] == "ctor":
         es = case["elements"]
         for e in POOL:
